@@ -479,15 +479,12 @@ theorem expandPair_name (e : Elem) (k k1 k2 : Str) : (e.expandPair k k1 k2).name
 theorem expandCompoundSize_name (e : Elem) : e.expandCompoundSize.name = e.name := by
   unfold Elem.expandCompoundSize
   simp only []
-  rw [expandPair_name]
-  split
-  · rw [expandPair_name, expandPair_name]
-  · rw [expandPair_name]
+  rw [expandPair_name, expandPair_name, expandPair_name]
 
 theorem expandCompoundPos_name (e : Elem) : e.expandCompoundPos.name = e.name := by
   unfold Elem.expandCompoundPos
   simp only []
-  rw [expandPair_name, expandPair_name, expandPair_name, expandPair_name]
+  rw [popAttr_name, expandPair_name, expandPair_name, expandPair_name, expandPair_name]
   split
   · rename_i e1 v heq
     rw [← popAttr_name' heq]
